@@ -146,12 +146,6 @@ def run(rep):
                         base = base.value
                     if isinstance(base, ast.Name) and base.id in alias and not (isinstance(v, ast.Call) and call_name(v) in COPY_CALLS):
                         alias.add(s.targets[0].id)
-                if isinstance(s, ast.Assign):
-                    for t in s.targets:
-                        if isinstance(t, ast.Tuple):
-                            for e in t.elts:
-                                if isinstance(e, ast.Name) and isinstance(s.value, ast.Attribute) is False:
-                                    pass
             n = 0
             fl_ = Flow(fi)
             for e in effects.effects_in(fi.node):
